@@ -29,8 +29,8 @@ CHECKS = {
    text="Invariant monitored on every pwrite of every seeded history: the written page range must not intersect the page sets of the newest committed version, of any open reader's version, or the newest meta slot.",
    tech="deterministic simulation: I/O interposition monitor over seeded histories with held readers"),
  "C08": dict(engine="faultsim", cat="fault_enumeration", ref="DESIGN.md §6 C08",
-   text="For a chosen commit of each seeded history every I/O call it issues is made to fail once (all positions and kinds in thorough, a sample incl. meta write and final sync in quick), with and without readers held across the failure; afterwards in-process state, readers, accounting, the next writer and the reopened state are checked. Histories are sampled.",
-   tech="deterministic simulation with fault injection: k-th I/O call of a commit fails (EIO/ENOSPC/short write) through the I/O hooks"),
+   text="For a chosen commit of each seeded history every I/O call it issues is made to fail once (all positions and kinds in thorough, a sample incl. meta write and final sync in quick), with and without readers held across the failure; afterwards in-process state, readers, accounting, the next writer and the reopened state are checked. Every third run is the concurrent arm: writer and reader tasks under the token scheduler while I/O faults hit whichever commits are running (readers that begin or dump during the failing commit keep their snapshot, waiting writers proceed, clean reopen shows the newest acknowledged version). Histories are sampled.",
+   tech="deterministic simulation with fault injection: k-th I/O call of a commit fails (EIO/ENOSPC/short write) through the I/O hooks; sequential enumeration arm + token-scheduler arm with faults under concurrency"),
  "C18": dict(engine="sizesim", cat="exploration", ref="DESIGN.md §6 C18",
    text="Seeded growing workloads under MaxSize values drawn around every alignment boundary; file length monitored at every ftruncate/pwrite and after every step; failing transactions must fail with the size-limit error and leave state intact.",
    tech="deterministic simulation: I/O interposition length monitor over seeded growing workloads x limit/map-size/alloc-size configurations"),
@@ -47,7 +47,7 @@ CHECKS = {
    text="Seeded multi-task runs in which backup tasks copy a read transaction (WriteTo into a writer that yields on every Write, CopyFile, WriteFlag) while writer tasks keep committing; the copy must have Tx.Size() bytes, decode cleanly to the snapshot's model version, open, dump equal and pass Tx.Check.",
    tech="deterministic simulation: token scheduler, harness io.Writer as a scheduling seam during WriteTo"),
  "C16": dict(engine="batchsim", cat="exploration", ref="DESIGN.md §6 C16",
-   text="Seeded runs of concurrent Batch callers under the token scheduler and fake clock (batch timers fire only when the scheduler advances time), with per-call failure plans; exactly-once tokens and read-modify-write counters per nil return, own error/panic per failure, every call returns.",
+   text="Seeded runs of concurrent Batch callers under the token scheduler and fake clock (batch timers fire only when the scheduler advances time), with per-call failure plans; exactly-once tokens and read-modify-write counters per nil return, own error/panic per failure, every call returns. In a third of the runs I/O faults make batch commits fail: every caller of that batch must be told and none of its effects committed.",
    tech="deterministic simulation: token scheduler + synctest fake clock over DB.Batch, exactly-once token/counter oracle"),
  "C17": dict(engine="locksim", cat="exploration", ref="DESIGN.md §6 C17",
    text="Seeded open/close schedules of read-write and read-only handles on one path under the token scheduler and fake clock against a lock model; seeded API programs and the CLI inspection commands against a read-only handle with every I/O call observed and the file hash compared; writes into returned memory must fault or leave content unchanged.",
